@@ -69,6 +69,12 @@ class QGen:
 
     def bool_arg(self, depth, pos):
         self.feat("arg.bool")
+        if depth < 3 and self.r.random() < 0.15:
+            # the value of a link: converted by the same words table as a textual argument (a truthy text such as 'f'
+            # or a number is not 'true')
+            self.feat("arg.bool_from_link")
+            self.feat("link.absolute")
+            return "~X~/%s~E" % self.r.choice(["lit-f", "lit-yes", "lit-no", "num-6", "num-0", "lit-TRUE", "lit-", "one", "flt-0.5", "lit-x"])
         return self.r.choice(["t", "true", "yes", "y", "f", "false", "no", "n", "TRUE", "x", "1", ""])
 
     def link(self, depth, pos, numeric=False):
@@ -117,7 +123,7 @@ class QGen:
             if self.allow_volatile:
                 pool += ["vol", "nocache", "recache", "nonvol"]
             if self.allow_mutators:
-                pool += ["push", "push", "setkey", "dfcol", "mutvar", "mk", "deepmut"]
+                pool += ["push", "push", "setkey", "dfcol", "mutvar", "mk", "deepmut", "argmut"]
             if self.allow_fail:
                 pool += ["boom", "needs", "nosuchcmd"]
             c = r.choice(pool)
@@ -190,6 +196,13 @@ class QGen:
             a = [encode_token(r.choice(["add-1", "cat-z", "ident", "add-2/cat-w", "mulf-2/ident"]))]
             self.feat("param.context")
             self.feat("sub_evaluation.injected_input")
+            self._numeric_prefix = False
+        elif c == "argmut":
+            # two arguments given by the very same link text: two values, not one shared object
+            L = r.choice(["~X~/mk-list-2~E", "~X~/mk-dict-1~E", "~X~/mk-matrix-1~E", "~X~/mk-list-1/push-q~E"])
+            a = [L, L] if r.random() < 0.7 else [L, self.str_arg(D, P)]
+            self.feat("link.absolute")
+            self.feat("link.same_text_twice_in_one_action")
             self._numeric_prefix = False
         elif c == "filename":
             # labels the result from inside the pipeline (a trailing file name, if any, has the last word)
